@@ -108,6 +108,7 @@ CANARIES = [
     ("save-accepts-arrays", "c18_io", "_io.py", "    if not isinstance(tensor, tb.Tensor):", "    if not isinstance(tensor, (tb.Tensor, np.ndarray)):", r"C18\."),
     ("load-ignores-grad", "c18_io", "_io.py", "    if \"grad\" in loaded:\n        loaded_tensor.backward(loaded[\"grad\"])\n", "", r"C18\."),
     # ---- kernel forwarding / wrappers / dunders (c03_wrap, c03_wrappers, c11_dunder) ----------------------------------------
+    ("mask-recorded-by-reference", "c03_wrap", "operation_base.py", "            self.where = np.array(where, copy=True)\n", "            self.where = where\n", r"C03\.kernel.*mask_recorded_iff_passed"),
     ("unary-drops-dtype", "c03_wrap", "operation_base.py", "        return self.numpy_ufunc(x1.data, out=out, where=where, dtype=dtype)", "        return self.numpy_ufunc(x1.data, out=out, where=where)", r"C03\."),
     ("binary-swaps-operands", "c03_wrap", "operation_base.py", "self.numpy_ufunc(x1.data, x2.data,", "self.numpy_ufunc(x2.data, x1.data,", r"C03\."),
     ("sequential-drops-ddof", "c03_wrap", "operation_base.py", "        if ddof is not _NoValue:\n            kwargs[\"ddof\"] = ddof\n", "", r"C03\."),
